@@ -217,7 +217,7 @@ fn classify(q: &Q, extra: bool, missing: bool) -> String {
         _ => "mismatch",
     };
     let kind = match q {
-        Q::Term(..) | Q::Tag(_) => "term",
+        Q::Term(..) | Q::Tag(_) | Q::TermNf(_) => "term",
         Q::Phrase { slop, words } => {
             if *slop > 0 && words.len() >= 3 {
                 return match dir {
